@@ -28,6 +28,9 @@ enum Op {
     Search { depth: u8, budget: Option<u64> },
 }
 
+/// the endings of the 'several hundred tiny searches' warm-up (position fen <one of these>, go depth 1)
+const TINY: [&str; 4] = ["8/8/8/4k3/8/8/4P3/4K3 w - - 0 1", "8/5k2/8/8/8/8/1Q6/K7 w - - 0 1", "8/8/4k3/8/2N5/8/8/4K3 w - - 0 1", "8/3k4/8/8/8/2R5/8/K3r3 w - - 0 1"];
+
 thread_local! {
     /// set by the fuzz entry: no multi-million-node warm-ups under the coverage-guided engine
     static NO_HEAVY: std::cell::Cell<bool> = std::cell::Cell::new(false);
@@ -417,6 +420,27 @@ fn part_selfplay(bytes: &[u8], stats: &mut Stats) -> Verdict {
     // middlegame search (1.4 M nodes, ended by a node deadline) before the game and before some of
     // its moves — "whatever it searched earlier in the same process"
     let veteran = s.chance(2) && !NO_HEAVY.with(|c| c.get());
+    // one game in fifty follows several hundred tiny searches on the same engine (counters of
+    // searches, of table generations, of ageing steps reach 256 and 512 before the game starts)
+    if s.chance(2) && !NO_HEAVY.with(|c| c.get()) {
+        let n = *s.pick(&[250usize, 257, 300, 513, 600]);
+        for i in 0..n {
+            let fen = TINY[i % TINY.len()];
+            let tp = Pos::from_fen(fen).unwrap().0;
+            let r = std::panic::catch_unwind(std::panic::AssertUnwindSafe(|| {
+                fl.verif_handle_command(&format!("position fen {}", fen));
+                go_through_handler(&mut fl, 1, None, 600_000)
+            }));
+            match r {
+                Ok((Ok(Some(m)), _, _)) if tp.find_uci(&m).is_some() => {}
+                Ok((mv, _, its)) => return Err(Failure::new("illegal-bestmove", json!({"history": [format!("{} tiny searches (position fen <one of 4 endings>, go depth 1), the {}th:", n, i + 1), format!("position fen {}", fen), {"search_depth": 1, "budget_nodes": null}], "current_position": tp.fen4(), "returned": format!("{:?}", mv), "iterations_completed": its}))),
+                Err(pn) => return Err(Failure::new("command-panic", json!({"history": [format!("position fen {}", fen)], "panic": crate::panic_text(&pn)}))),
+            }
+            stats.eval();
+        }
+        log.push(json!({"tiny_searches": n}));
+        stats.class("S_games_after_several_hundred_tiny_searches_on_the_same_engine");
+    }
     let mut heavy_nodes = 0u64;
     for ply in 0..plies {
         if veteran && (ply == 0 || s.chance(10)) {
@@ -813,6 +837,20 @@ fn replay_history(hist: &[Value], stats: &mut Stats) -> Verdict {
             lines.push(cmd.to_string());
             if let Err(pn) = std::panic::catch_unwind(std::panic::AssertUnwindSafe(|| fl.verif_handle_command(cmd))) {
                 return Err(Failure::new("command-panic", json!({"history": log, "panic": crate::panic_text(&pn)})));
+            }
+            continue;
+        }
+        if let Some(n) = item.get("tiny_searches").and_then(|x| x.as_u64()) {
+            // the warm-up of several hundred tiny searches (its answers were judged when it was generated)
+            for i in 0..n as usize {
+                let fen = TINY[i % TINY.len()];
+                let r = std::panic::catch_unwind(std::panic::AssertUnwindSafe(|| {
+                    fl.verif_handle_command(&format!("position fen {}", fen));
+                    go_through_handler(&mut fl, 1, None, 600_000)
+                }));
+                if let Err(pn) = r {
+                    return Err(Failure::new("command-panic", json!({"history": log, "panic": crate::panic_text(&pn)})));
+                }
             }
             continue;
         }
